@@ -174,6 +174,18 @@ CLAIMED: dict[str, tuple[str, str, str, str, str]] = {
         "Trusted: TLC; the virtual-time event loop of the harness. Programs are single-task (task-group children are not generated). Known finding "
         "F8 (external cancellation lost behind ignore_cancellation + cancelled scope) is listed in known_findings.json.",
     ),
+    "C08": (
+        "model_checking",
+        "TLA+ spec TLSChannel (lock discipline of _retry_ssl_method, reader+writer task per side, bounded pipe) model-checked by TLC for deadlock, "
+        "conservation and completion; sessions of the real AsyncTLSStreamTransport against an independent ssl.SSLObject peer over fragmenting in-memory "
+        "pipes (and of the blocking SSLStreamTransport against a threaded stdlib peer) logged and validated by TLC against TLSStreamTrace",
+        "DESIGN.md section 5 (C08)",
+        "TLC decides the lock discipline exhaustively for small record counts (it exhibits the bounded-pipe deadlock F10 and proves the unbounded "
+        "case deadlock-free and live); the stream law (bytes read = bytes written, in order, nothing unread at the end, ciphertext only on the wire) is "
+        "decided by TLC on every recorded session; the virtual-time loop turns a stall into a rejected trace.",
+        "Trusted: TLC, OpenSSL (environment), the independent peer. Known finding F10 (deadlock with both writers blocked on a bounded pipe) is "
+        "listed in known_findings.json.",
+    ),
 }
 
 NOT_YET = "check not built yet in this revision of /verif (planned: see DESIGN.md section 0); not claimed until its check exists"
